@@ -84,6 +84,8 @@ class Ctx:
         if isinstance(q, float):
             if q == int(q) and abs(q) < 2**53:
                 return self.const(int(q))
+            if getattr(self, "floats", "refuse") == "exact":
+                return self.const(Fraction(q))
             raise Unsupported(f"float {q!r} leaked into exact arithmetic")
         try:
             import numpy as np
@@ -318,7 +320,7 @@ class X:
     """Exact scalar. Arithmetic with int / Fraction / X. Comparisons are decided by the witness
     (and recorded), or exactly when the value is a ground number."""
     __slots__ = ("c", "v", "w")
-    __array_priority__ = 1000
+    pass
 
     def __init__(self, c: Ctx, v, w=None):
         self.c, self.v, self.w = c, v, w
